@@ -373,7 +373,10 @@ func (c *compiler) evalAccessIndex(left, index interface{}, node *ast.IndexExpre
 
 func (c *compiler) evalHashLiteral(node *ast.HashLiteral) (interface{}, error) {
 	m := map[string]interface{}{}
-	for ke, ve := range node.Pairs {
+	// evaluate in source order: Pairs is an unordered map, and the order
+	// decides both the order of side effects and which duplicate key wins
+	for _, ke := range node.Order {
+		ve := node.Pairs[ke]
 		v, err := c.evalExpression(ve)
 		if err != nil {
 			return nil, err
